@@ -26,7 +26,8 @@ META = {
                   "pin the library's behaviour at the pinned commit); z3/cvc5; symx semantics incl. int.from_bytes/to_bytes, bytes.split/decode and "
                   "int*Decimal text tokens (each path re-run concretely).",
     "explanation": "symbolic execution of MemoryValue.from_list/check_raw/is_valid/raw_to_value/value_to_raw",
-    "bounds": ["every declared value with all bytes symbolic (numbers up to 8 bytes = 2^64 values; strings "
+    "bounds": ["pairs of different numeric value classes of equal width decoded one after the other (quick: every third pair)",
+               "every declared value with all bytes symbolic (numbers up to 8 bytes = 2^64 values; strings "
                "of 24 and 60 symbolic bytes)", "inverse direction: symbolic in-range numbers, symbolic ASCII "
                "strings of every length 0..field width (quick: 0..8 and the full width)",
                "MASK/TMASK support, limits and (un)signedness of every value compared with the flag table "
